@@ -701,16 +701,36 @@ def narrowread(run, fx, rule='NARROWREAD'):
                     if wt and wt[0] < wide[src['vid']][0]:
                         bad.append((fn, e, e.get('t'), '%s (local %s)' % (wide[src['vid']][2], wide[src['vid']][1])))
     total += fwd
+    # the opposite accident: a narrow SIGNED holder (int16 local, element of an int16 scratch array) implicitly widened to an unsigned type --
+    # values with the top bit set arrive sign-extended (a Feat default 0x8000 becomes 0xFFFF8000 and fails the range check of
+    # applyValToFeature).  Expected count zero, one tabled exception.
+    SIGNEXT_OK = {('CmapSubtable4Lookup', 'idDelta'): 'format 4 delta arithmetic is modulo 65536: the sum is truncated to 16 bits again, the extension cancels'}
+    sx = 0
+    for fn in fx.all_fns():
+        if not fn.file.startswith('src/') or fn.f.get('implicit'):
+            continue
+        for _, e in fn.elements():
+            if e['k'] == 'ImplicitCastExpr' and e.get('ck') == 'IntegralCast':
+                src = fn.N(e['c'][0])
+                st, dt = int_type((src.get('t') or '').replace('const ', '')), int_type((e.get('t') or '').replace('const ', ''))
+                if st and dt and st[1] and not dt[1] and dt[0] > st[0] and st[0] < 32 and src.get('v') is None:
+                    sx += 1
+                    if (fn.q.split('::')[-1], fn.render(fn.strip_all_casts(src))) not in SIGNEXT_OK:
+                        bad.append((fn, e, '%s (sign-extended from %s `%s`)' % (e.get('t'), src.get('t'), fn.render(fn.strip_all_casts(src))[:40]), src.get('t')))
     if total < 60:
         run.broken(rule, 'census', 'only %d stores of be::read / be::peek results found (98 confirmed)' % total)
         return
     if bad:
         fn, e, t, rt = bad[0]
+        if 'sign-extended' in (t or ''):
+            run.violated(rule, 'table fields stored at full width', fn.loc(e), '%s widens a narrow signed value implicitly into `%s`: a table value with its top bit set arrives sign-extended '
+                         '(0x8000 becomes 0xFFFF8000) -- range checks reject it or it selects something else' % (fn.q, t), {'all': ['%s %s<-%s' % (f.loc(x), a, b) for f, x, a, b in bad[:8]]})
+            return
         run.violated(rule, 'table fields stored at full width', fn.loc(e), '%s keeps a %s table field in a `%s`: the upper bits are dropped at load, so the value later '
                      'compares equal to (or misses) numbers it does not denote -- e.g. a pseudo-glyph code point above U+FFFF is never found and its '
                      'low 16 bits match a different character' % (fn.q, rt, t), {'all': ['%s %s<-%s' % (f.loc(x), a, b) for f, x, a, b in bad[:8]]})
     else:
-        run.held(rule, 'table fields stored at full width', '', '%d stores of be::read / be::peek results, none into a narrower integer' % total)
+        run.held(rule, 'table fields stored at full width', '', '%d stores of be::read / be::peek results, none into a narrower integer; %d implicit sign-extending widening(s), all tabled' % (total, sx))
 
 
 def nextinrange(run, fx):
